@@ -1,0 +1,10 @@
+// Storage for the verification hooks; empty unless built with -DPHOTON_VERIF.
+#include "verif-hooks.h"
+
+#ifdef PHOTON_VERIF
+namespace photon {
+namespace verif {
+hooks_t g_hooks;
+}
+}
+#endif
